@@ -152,6 +152,64 @@ def wire_case(args):
         return dict(bad=[dict(what='exception', exc=repr(e) + traceback.format_exc()[-400:])], info=info, accepted=True)
 
 
+# parameter sets the documentation of mininec/taper.py shows as tapered (length, segments, radius, minimum, maximum,
+# taper type): they must be ACCEPTED and really tapered (a change that turns them into rejections or into the silent
+# fall-back to equal segments would otherwise only shrink the explored set)
+DOCUMENTED = [
+    (1.0, 5, 0.001, None, None, 3), (1.0, 5, 0.001, None, 0.3, 3), (1.0, 5, 0.04, None, None, 3), (1.0, 5, 0.05, None, None, 3),
+    (1.0, 5, 0.06, None, None, 3), (7.0, 6, 0.001, None, None, 3), (7.0, 6, 0.001, None, 1.5, 3), (7.0, 6, 0.4, None, None, 3),
+    (7.0, 6, 0.001, 1.0, None, 3), (3.0, 8, 0.001, None, None, 3), (10.0, 10, 4e-4, 0.32, 4.0, 3), (0.25, 10, 1e-5, 0.008, 0.1, 3),
+    (31.0, 5, 0.001, None, None, 1), (31.0, 5, 0.001, None, 7.0, 1), (31.0, 5, 0.001, None, 8.0, 1), (31.0, 5, 0.8, None, None, 1),
+    (31.0, 5, 0.001, 2.0, None, 1), (31.0, 5, 0.8, None, None, 2), (31.0, 5, 0.001, None, None, 2), (0.25, 10, 1e-5, 0.008, 0.1, 2),
+    (0.25, 7, 0.001, None, None, 1), (0.25, 7, 0.001, None, None, 2), (0.5, 7, 0.001, 1 / 200, None, 1),
+    (0.5, 7, 0.001, None, (0.5 - 15 / 100) / 3, 1), (0.5, 7, 0.001, 1 / 200, (0.5 - 15 / 100) / 3, 1),
+]
+
+
+def documented_case(args):
+    k, sd = args
+    length, n, r, mn, mx, st = DOCUMENTED[k]
+    rnd = random.Random('%s/doc/%d' % (sd, k))
+    bad = []
+    try:
+        p1 = np.array([rnd.uniform(-5, 5) for _ in range(3)])
+        d = np.array([rnd.uniform(-1, 1) for _ in range(3)])
+        d /= np.linalg.norm(d)
+        p2 = p1 + d * length
+        w = Wire(n, *p1, *p2, r)
+        w.segtype = st
+        w.taper_min, w.taper_max = mn, mx
+        try:
+            m = Mininec(7.0, [w])
+        except (AssertionError, ValueError, Taper_Error) as e:
+            return dict(bad=[dict(what='documented-taper-rejected', exc=type(e).__name__, st=st)])
+        g = m.geo[0]
+        if g.segtype == 0:
+            return dict(bad=[dict(what='documented-taper-fell-back-to-equal-segments', st=st)])
+        if chained(g, p1, p2, n, bad, 'taper'):
+            l = np.array([s.seg_len for s in g.segments])
+            lo = max(2.5 * r, mn or 0)
+            if (l < lo * (1 - SLACK)).any():
+                bad.append(dict(what='taper-below-minimum', st=st))
+            if mx is not None and (l > mx * (1 + SLACK)).any():
+                bad.append(dict(what='taper-above-maximum', st=st))
+            ratios = l[1:] / l[:-1]
+            if (ratios > 2.1 * (1 + SLACK)).any() or (1 / ratios > 2.1 * (1 + SLACK)).any():
+                bad.append(dict(what='taper%d-ratio' % st, st=st))
+            if st == 1 and (ratios < 1 - SLACK).any() or st == 2 and (ratios > 1 + SLACK).any():
+                bad.append(dict(what='taper%d-not-monotonic' % st, st=st))
+            if st == 3 and np.abs(l - l[::-1]).max() > 1e-9 * l.max():
+                bad.append(dict(what='taper3-not-symmetric', st=st))
+            # really tapered: the shortest segment is clearly shorter than the equal segment length unless the
+            # minimum forbids it
+            if l.min() > (length / n) * (1 - 1e-9) and lo < (length / n) * (1 - 1e-6):
+                bad.append(dict(what='documented-taper-not-tapered', st=st))
+    except Exception as e:      # noqa
+        import traceback
+        bad.append(dict(what='exception', exc=repr(e) + traceback.format_exc()[-400:]))
+    return dict(bad=bad)
+
+
 def curve_case(args):
     kind, sd = args
     rnd = random.Random('%s/%s' % (sd, kind))
@@ -245,6 +303,11 @@ def run(tier):
         chk.case(k, True, sample=dict(wire=k, info=o['info']))
         for b in o['bad']:
             chk.violation(dict(kind=b['what'], st=b.get('st')), dict(case=k, info=b))
+    djobs = [(k, C.seed()) for k in range(len(DOCUMENTED))]
+    for (k, _), o in zip(djobs, C.parallel_map(documented_case, djobs, chunksize=4)):
+        chk.case('documented-taper#%d' % k, True, sample=dict(documented=DOCUMENTED[k]))
+        for b in o['bad']:
+            chk.violation(dict(kind=b['what'], st=b.get('st')), dict(case=DOCUMENTED[k], info=b))
     ckinds = ['arc/pos', 'arc/neg', 'helix/circ/untapered', 'helix/circ/tapered', 'helix/ell/untapered', 'helix/ell/tapered']
     jobs = [('%s#%d' % (k, i), C.seed()) for k in ckinds for i in range(nrep)]
     for (k, _), o in zip(jobs, C.parallel_map(curve_case, jobs, chunksize=8)):
